@@ -164,7 +164,7 @@ def materialize(sc):
     sp = sc.spec
     if P.branch(sp.known(sc.code)):
         idx = V.simp(sp.first_index(sc.code))
-        m = sp.members[idx.as_long()] if z3.is_int_value(idx) else SEnum(sp.enum_cls, idx)
+        m = sp.members[idx.as_long()] if z3.is_int_value(idx) else SEnum(sp.enum_cls, idx, code_hint=sc.code)
         return call(sp.wrap_known, [m], {}) if sp.wrap_known is not None else m
     if sp.fallback_cls is None:
         raise E.Unsupported('coded item with unknown code and no fallback class')
@@ -249,7 +249,7 @@ def getattr_(o, name):
         if name == 'value':
             if issubclass(o.cls, int):
                 return ops.wrap_int(ops.as_int(o))
-            return SEnumValue(o.cls, o.idx)
+            return SEnumValue(o.cls, o.idx, getattr(o, 'code_hint', None))
         if name == 'name':
             return SAbs('enum_name', o.idx, str)
         if name == '__class__':
@@ -289,6 +289,8 @@ def getattr_(o, name):
 
 
 def enum_value_attr(ev, name):
+    if name == 'code' and getattr(ev, 'code_hint', None) is not None:
+        return ops.wrap_int(ev.code_hint)
     ms = list(ev.cls)
     vals = []
     for m in ms:
